@@ -55,6 +55,14 @@ func (w *World) funcModelOf(g *G, v Value) *funcModel {
 	return o.payload.(*funcModel)
 }
 
+// newError builds an error value of dynamic type *errors.errorString.
+func (w *World) newError(text string) Iface {
+	et := w.in.Prog.ImportedPackage("errors").Type("errorString").Type()
+	c := w.newCell(et)
+	w.store(c.fields[0], w.strConst(text))
+	return Iface{t: types.NewPointer(et), v: Ptr{c}}
+}
+
 func isErrorType(t types.Type) bool {
 	n, ok := t.(*types.Named)
 	return ok && n.Obj().Pkg() == nil && n.Obj().Name() == "error"
@@ -217,7 +225,8 @@ func registerFuncsIntrinsics(m map[string]intrinsic) {
 		in, _ := a[1].(Slice)
 		zero := w.zero(w.in.Prog.ImportedPackage(funcsPkg).Type("Value").Type())
 		if in.len != fm.numIn {
-			w.abort("funcs model: ValueCall with %d args for %d params (ErrNumParams path not modelled)", in.len, fm.numIn)
+			fin(Tuple{zero, w.newError("The number of params is not adapted")})
+			return
 		}
 		args := []Value{fm.recv}
 		for i := 0; i < in.len; i++ {
@@ -253,7 +262,7 @@ func registerFuncsIntrinsics(m map[string]intrinsic) {
 			}
 		})
 	}
-	m[funcsPkg+".Value.Interface"] = func(w *World, g *G, a []Value, fin func(Value)) {
+	m["("+funcsPkg+".Value).Interface"] = func(w *World, g *G, a []Value, fin func(Value)) {
 		iv, ok := w.unwrapReflect(g, a[0])
 		if !ok {
 			w.goPanic(g, "reflect: call of reflect.Value.Interface on zero Value", nil)
